@@ -5,8 +5,9 @@
    (line comparison).  Document level for DFXP/SAMI (bs4 prettify, lxml, html.parser) is correspondence-only. *)
 From Coq Require Import List ZArith Bool.
 From PV Require Import lib.Sx lib.Str model.TextNodes model.TextWrite.
-From PV Require Import spec.SpecTextXml spec.SpecTextVtt spec.SpecTextBlocks spec.SpecTextLines.
+From PV Require Import spec.SpecTextXml spec.SpecTextVtt spec.SpecTextBlocks spec.SpecTextLines spec.SpecTextStyle.
 From PV Require Import proofs.TextXmlFacts proofs.TextVttFacts proofs.TextBlocksFacts.
+From PV Require Import proofs.TextReadFacts proofs.TextPayloadFacts proofs.TextRoundtripFacts.
 Import ListNotations.
 Open Scope Z_scope.
 
@@ -25,6 +26,36 @@ Print Assumptions C03_xml_escape_displays.
 Theorem C03_xml_escape_per_char : forall s, xml_escape s = flat_map xesc1 s.
 Proof. exact xml_escape_flat. Qed.
 Print Assumptions C03_xml_escape_per_char.
+
+(* ---- the whole <p> payload (text, <br/>, spans, the writers' rstrip's and literal white space) ----
+   nodes_ok plain_style: texts over XML Char without CR, style dictionaries without colour (italics/bold/underline).
+   The strict parser reads the payload as the token list of the abstract, string-free writer (ANY such node list) ... *)
+Theorem C03_dfxp_payload_parse : forall region ns, nodes_ok plain_style ns = true ->
+  content_parse (dfxp_payload (extra_of region) ns) = xbuild (abs_tokens [] (dfxp_atok region) ns) [] [].
+Proof. exact dfxp_payload_parse. Qed.
+Print Assumptions C03_dfxp_payload_parse.
+
+Theorem C03_legacy_payload_parse : forall ns, nodes_ok plain_style ns = true ->
+  content_parse (legacy_payload ns) = xbuild (abs_tokens (lit " ") (dfxp_atok false) ns) [] [].
+Proof. exact legacy_payload_parse. Qed.
+Print Assumptions C03_legacy_payload_parse.
+
+Theorem C03_sami_payload_tokens : forall ns, nodes_ok plain_style ns = true ->
+  xtokens (sami_payload ns) = Some (sami_abs_tokens ns).
+Proof. exact sami_payload_tokens. Qed.
+Print Assumptions C03_sami_payload_tokens.
+
+(* ... and for balanced flat spans it is well-formed and shows every visible character and every break, in order *)
+Theorem C03_dfxp_payload_wellformed : forall region ns, nodes_ok plain_style ns = true -> flat_balanced ns = true ->
+  exists t, content_parse (dfxp_payload (extra_of region) ns) = Some t /\
+            vis (flat_map tree_flat t) = vis (node_flat ns).
+Proof. exact dfxp_payload_wellformed. Qed.
+Print Assumptions C03_dfxp_payload_wellformed.
+
+Theorem C03_legacy_payload_wellformed : forall ns, nodes_ok plain_style ns = true -> flat_balanced ns = true ->
+  exists t, content_parse (legacy_payload ns) = Some t /\ vis (flat_map tree_flat t) = vis (node_flat ns).
+Proof. exact legacy_payload_wellformed. Qed.
+Print Assumptions C03_legacy_payload_wellformed.
 
 (* ---- WebVTT ---- *)
 Theorem C03_vtt_encode_roundtrip : forall s, vtt_display (vtt_encode s) = s.
@@ -113,3 +144,11 @@ Example C03_example_mdvd :
   mdvd_cues (mdvd_doc [(lit "{25}{50}", [NBreak; NText (lit " a{1}{2}"); NBreak; NBreak; NText (lit "b "); NBreak])])
   = Some [[[]; lit " a{1}{2}"; []; lit "b "]].
 Proof. vm_compute. reflexivity. Qed.
+
+Example C03_example_payload :
+  let ns := [NText (lit "a & b "); NBreak; NStyle true sty_i; NText (lit " <c> "); NStyle false sty_i; NText (lit "d")] in
+  nodes_ok plain_style ns = true /\ flat_balanced ns = true /\
+  content_parse (dfxp_payload [] ns) =
+  Some [XText (lit "a & b"); XElem (lit "br") [] []; XText ([10] ++ lit "    ");
+        XElem (lit "span") [(lit "tts:fontStyle", lit "italic")] [XText (lit " <c>")]; XText (lit " d")].
+Proof. repeat split; vm_compute; reflexivity. Qed.
